@@ -8,7 +8,8 @@
    c10_model preproc   line: <hex file> [<hex define_str> ...]   (define_str = what follows -D)
                        out : "E <number of preprocessor errors>"  or  "EMPTYNAME" when a -D gives an
                              empty macro name (finding C10-empty-macro-name; the model excludes it)
-   c10_model scan      line: <hex text of E>     out: "<tokens> <scan_total>"  (look-ahead cost) *)
+   c10_model scan      line: <hex text of E>     out: "<tokens> <scan_total_b> <scan_total>"  (look-ahead cost of the
+                       bounded loop as coded since 98a0163, and of the same loop without the bound) *)
 open C10_model
 
 let explode s = List.init (String.length s) (String.get s)
@@ -49,7 +50,7 @@ let () =
        | "scan" ->
            let src = unhex (String.trim l) in
            let ts = expr_tokens src in
-           Printf.printf "%d %d\n" (List.length ts) (int_of_nat (scan_total ts))
+           Printf.printf "%d %d %d\n" (List.length ts) (int_of_nat (scan_total_b ts)) (int_of_nat (scan_total ts))
        | "preproc" ->
            (match words l with
             | [] -> print_endline "E 0"
